@@ -4,7 +4,7 @@
    is flagged, so it is reported invalid even on the last byte of a read. *)
 From Via Require Import M_Char M_Parse M_Receive P_Parse.
 From Via Require Import P_Frag P_FragC P_Term P_TermC.
-From Via Require Import M_Imp M_Loop M_Hdr M_Msg Gen_Parse P_Imp P_Loop P_Hdr P_Msg.
+From Via Require Import M_Imp M_Loop M_Hdr M_Msg M_Chunk Gen_Parse P_Imp P_Loop P_Hdr P_Msg P_C06b P_Chunk.
 From Via Require Import M_Client P_Client.
 Local Open Scope N_scope.
 
@@ -190,3 +190,17 @@ Theorem C07_response_head_is_the_source : forall L q buf fuel, hd_ok (rp_headers
   Some (let '(q', rest, p) := rp_parse L q buf in (is_done p, rp_store q', rest)).
 Proof. exact rp_parse_is_the_source. Qed.
 Print Assumptions C07_response_head_is_the_source.
+
+(* rx_chunk::parse of a chunked response: the model's rc_parse is the translated source (see Properties_C01.v) *)
+Theorem C07_chunk_is_the_source : forall L k buf fuel,
+  rc_inv L k -> hd_ok (rc_trailers k) -> small (ck_max (rc_hdr k)) -> (length buf + 2 <= fuel)%nat ->
+  crun (ck_lim L) (fl_lim L) (hd_lim L) (kc_of L) (hd_code_of L) fuel (rc_src L) (rc_store k) buf =
+  Some (let '(k', rest, p) := rc_parse L k buf in (is_done p, rc_store k', rest)).
+Proof. exact rc_parse_is_the_source. Qed.
+Print Assumptions C07_chunk_is_the_source.
+
+Theorem C07_response_reset_is_the_source : forall L fuel q inp,
+  mexec (sl_lim L) (fl_lim L) (hd_lim L) (sl_code_of L) (hd_code_of L) fuel rs_clear_src (mk_mst (rp_store q) inp) =
+  Some (LNormal, mk_mst (rp_store rp_init) inp).
+Proof. exact rp_clear_is_the_source. Qed.
+Print Assumptions C07_response_reset_is_the_source.
